@@ -112,6 +112,25 @@ def run(tier, selftest):
                 ed = ea["edit"]
                 rep.violation(f"regen:edit:{ed['op']}:{ed['kind']}", f"shipped and freshly generated code differ in {keys} after the API edit {ed}",
                               {"kind": "edit", "text": case["text"], "cumulative": case["cumulative"], "edits": case["edits"] if case["cumulative"] else [ed]})
+    # include files: every block of every element taken from an include file (load, write, merge_includes)
+    from checks import c16
+    iroot = os.path.join(vlib.scratch(), "c20_inc")
+    os.makedirs(iroot)
+    iprep, imeta = c16.subblock_cases(iroot, "quick")
+    ipth = os.path.join(vlib.scratch(), "c20_inc_cases.ndjson")
+    vlib.write_ndjson(ipth, iprep)
+    ires = []
+    for b in (shipped, fresh):
+        rc, lines, err = vlib.run_harness(b, ["include-op", "--cases", ipth], timeout=3000)
+        ires.append({l["id"]: l for l in lines if "id" in l})
+    for p, m in zip(iprep, imeta):
+        xa, xb = ires[0].get(p["id"]), ires[1].get(p["id"])
+        if xa != xb:
+            disagreements += 1
+            keys = [k for k in set(xa or {}) | set(xb or {}) if (xa or {}).get(k) != (xb or {}).get(k)]
+            rep.violation(f"regen:include:{m['tag']}", f"shipped and freshly generated code differ in {keys} when {m['tag']} of {m['e']} is taken from an include file",
+                          {"kind": "include", "meta": m})
+    shutil.rmtree(iroot, ignore_errors=True)
     # (i) the fresh variant conforms to the specification as well
     events = [pc.load_event(r, s, c if c["k"] not in ("layout",) else None) for r, (t, s), c in zip(rb, docs, meta)]
     rejected, trees, tr, njudged = pc.judge_events(events, PID)
@@ -136,6 +155,7 @@ def run(tier, selftest):
         "rule": "every document of the corpus is run through both builds; a case counts as checked when all transcript parts (tokens, outcome, error and diagnostic texts, Debug tree, written text, three reload cycles) were compared",
         "disagreements_found": disagreements,
         "api_edits_compared": nedits,
+        "include_cases_compared": len(iprep),
         "cases_per_kind": kinds,
         "fresh_variant_events_validated_against_parser_spec": njudged,
         "fresh_variant_events_rejected": len(rejected),
@@ -167,6 +187,23 @@ def replay(path):
             outs.append(open(eo).read())
         if outs[0] != outs[1]:
             rep.violation("regen:edit", "shipped and freshly generated code differ after an API edit", case)
+        print("replay:", "violation reproduced" if rep.new else "no violation")
+        return rep.exit_code()
+    if case.get("kind") == "include":
+        from checks import c16
+        m = case["meta"]
+        d = os.path.join(vlib.scratch(), "c20_inc_replay")
+        src, dst = os.path.join(d, "src"), os.path.join(d, "out")
+        os.makedirs(src)
+        os.makedirs(dst)
+        for dd in (src, dst):
+            with open(os.path.join(dd, "part.a2l"), "w") as f:
+                f.write(m["part"] + "\n")
+        with open(os.path.join(src, "main.a2l"), "w") as f:
+            f.write(m["main"])
+        p = {"id": "sb0", "main": os.path.join(src, "main.a2l"), "flat": m["flat"], "outdir": dst}
+        if c16.run_one(shipped, p) != c16.run_one(fresh, p):
+            rep.violation("regen:include", "shipped and freshly generated code differ for a block taken from an include file", case)
         print("replay:", "violation reproduced" if rep.new else "no violation")
         return rep.exit_code()
     docs = [(case["text"], case["strict"])]
